@@ -54,6 +54,7 @@ PROP = {
     "trusted": [
         "hook hsms/verif_export_lifecycle.go: VerifNextBackoffDelay calls nextBackoffDelay; multipliers travel as float64 bit patterns",
         "Flocq 4.1.0 (binary64 formalisation: binary_normalize, Bmult, Btrunc and their correctness theorems)",
+        "harness/cmd/c10/lc/e4.go: a minimal SEMI E4 line peer (ENQ/EOT/block/checksum/ACK, contention by role) used for the SECS-I cuts",
         "e2e rig harness/cmd/c10/lc (shared with C10): harness-owned pipes via WithDialer/WithListener, scripted raw-frame peer that cuts the stream after an exact number of bytes read or written, dial timestamps taken inside the dialer wrapper",
         "amd64 semantics of float64->int64 conversion for NaN/Inf/out-of-range values (CVTTSD2SQ returns -2^63); the Go spec leaves it implementation-defined, the differential checks it on this machine",
     ],
@@ -62,6 +63,7 @@ PROP = {
         "the sleep sequence theorem is for a configuration that does not change while the loop runs (the loop re-reads T5 and the multiplier every iteration)",
         "liveness ('eventually re-establishes a Selected, fully working session') is OBSERVED in every e2e run (post-recovery round trip within 8 s), not proved: the theorems give the safety half (C11_loop_exists: an open NotConnected connection is always covered by a loop / Start / reaction / live listener)",
         "lifecycle theorems: same model and assumptions as C10 (atomic steps per DESIGN.md A.3, joins complete, hsmsss transport contract, environment over-approximated)",
+        "the lifecycle LTS abstracts 'the transport reports the loss of the link on ANY I/O error of a live generation' as one environment action (LcRecvExit true / LcSpuriousDown -> evDisconnect); its correspondence is the e2e cut matrix: HSMS-SS cut/stalled at every byte offset, and SECS-I killed at every position of the E4 line protocol (library-initiated O1..O6, peer-initiated P1..P5; peer closes / library's end closed underneath; active/passive x equipment/host) - each loss must lead to NotConnected, a re-dial / re-accept, Reconnects()+1 and a working round trip",
         "dial-gap lower bounds are exact (a timer cannot fire early), upper bounds carry 2.5 s of slack",
     ],
 }
